@@ -5,6 +5,7 @@ import Driver.Bytes
 import Driver.Watch
 import Driver.Src
 import Driver.Cell
+import Driver.Reloader
 /-!
 # amdrv — the model driver
 
@@ -32,6 +33,7 @@ def dispatch (e : Engines) (ws : List String) : Engines × String :=
     else if w.startsWith "by." then let (s, o) := Driver.Bytes.step e.bytes ws; ({ e with bytes := s }, o)
     else if w.startsWith "watch." then
       let (s, o) := Driver.Watch.step e.watch ws; ({ e with watch := s }, o)
+    else if w.startsWith "hr." || w.startsWith "idle." then (e, Driver.Reloader.step ws)   -- C08 / C15
     else if w.startsWith "s." then let (s, o) := Driver.Src.stepAll e.src ws; ({ e with src := s }, o)
     else if w.startsWith "cell." then let (s, o) := Driver.Cell.step e.cell ws; ({ e with cell := s }, o)
     else
